@@ -51,6 +51,14 @@ def scenario_of(case):
         hard=bool(case["run_index"] % 2),
     )
     rng = rng_from(case["fault_seed"])
+    if scn["checkpoint"]["mode"] == "auto":
+        # the whole workflow inside one context (fit there too), or another sampling call in the context first
+        r2 = rng_from(case["fault_seed"] + 5)
+        v = int(r2.integers(4))
+        if v == 0:
+            scn["checkpoint"]["fit_in_context"] = True
+        elif v == 1:
+            scn["checkpoint"]["earlier_call_in_context"] = True
     pre = None
     if rng.integers(3) == 0:
         pre = copy.deepcopy(scn)
